@@ -84,6 +84,16 @@ def run(ctx, rep):
     _m2_m3(F, rep)
     from . import sib
     sib.m4(F, rep)
+    # M6: the block writer that reconstruction ends in (shared with C07/W2): reference tokens keep their distance,
+    # every bit write fits the 32-bit bit buffer
+    from . import c07
+    from ..core import Report
+    tmp = Report("tmp", "quick")
+    c07.w2(F, tmp)
+    c07.w2b(ctx, tmp)
+    for o in tmp.obs:
+        o.rule = "M6"
+        rep.obs.append(o)
 
 
 def _m2_m3(F, rep):
